@@ -4,8 +4,10 @@ CONSTANTS
   MaxN = 3
   MaxPath = 2
   EMIT = TRUE
-  RICH = FALSE
+  RICH = 1
   UNIFORM = FALSE
+  NARROW = 0
+  INLINE = FALSE
 INVARIANT WellFormed
 INVARIANT GenLexAgree
 INVARIANT Emit
